@@ -133,6 +133,17 @@ def Sink.writeSeq : Sink → List Bytes → Option (Sink × List Bool)
     | .err s' => (Sink.writeSeq s' cs).map fun (t, r) => (t, false :: r)
     | .panic  => none
 
+/-- a script of `Encoder` calls on ONE sink that carries on after a failed call: each call hands its `put`
+    chunks to `write_all` until one fails (`?` inside the method), the next call starts from whatever
+    that left behind.  Per-call outcomes (`true` = `Ok`) and the final state; `none` = a panic. -/
+def Sink.callSeq : Sink → List (List Bytes) → Option (Sink × List Bool)
+  | s, [] => some (s, [])
+  | s, ps :: rest =>
+    match s.putAll ps with
+    | .ok s'  => (Sink.callSeq s' rest).map fun (t, r) => (t, true :: r)
+    | .err s' => (Sink.callSeq s' rest).map fun (t, r) => (t, false :: r)
+    | .panic  => none
+
 /-- the bytes the sink has accepted so far. -/
 def Sink.accepted : Sink → Bytes
   | .bounded _ b => (b.mem.drop b.base).take b.pos
